@@ -521,6 +521,9 @@ func newSchemaType(spec *specification.Schema, components Componenter, cfg Confi
 	case "": // any
 		return RawBytesType{}, nil, nil
 	case "array":
+		if spec.Value().Items == nil {
+			return nil, nil, fmt.Errorf("'array' type: items schema is not defined")
+		}
 		itemType, is, err := NewSchema(spec.Value().Items, NamedComponenter{Componenter: components, Name: "Items"}, cfg)
 		if err != nil {
 			return nil, nil, fmt.Errorf("items schema: %w", err)
